@@ -209,6 +209,56 @@ func (o *C08) Check(x *h.Exec, ev *h.Event) {
 						offs = append(offs, k)
 					}
 				}
+				// the empty line behind the last argument of a multi-line call of a
+				// known function: what is about to be typed there is the next
+				// parameter's value
+				if e := n.Item.Attr.Expr; e != nil && e.K == "call" && e.Multi && ai.as.Cons.K == "any" && e.ID > 0 && e.ID < len(rd.Nodes) && rd.Nodes[e.ID] != nil && rd.Nodes[e.ID].Slot > 0 {
+					var fs *world.FuncSpec
+					for _, cand := range p.Spec.Funcs {
+						if cand.Name == e.S {
+							fs = cand
+						}
+					}
+					ptype := ""
+					if fs != nil && model.Convertible(fs.Return, ai.as.Cons.Type) {
+						switch {
+						case len(e.A) < len(fs.Params):
+							ptype = fs.Params[len(e.A)].Type
+						case fs.VarParam != nil:
+							ptype = fs.VarParam.Type
+						}
+					}
+					slot := rd.Nodes[e.ID].Slot
+					if ptype != "" && (c == nil || c.Offsets == nil || hasInt(c.Offsets, slot)) {
+						salt++
+						q := h.Query{Kind: "completion", Path: pi, File: f.Name, Off: slot, Order: orderFor(c, salt)}
+						r := x.Run(q)
+						if cands, ok := r.Val.(lang.Candidates); ok && r.Panic == nil && r.Err == nil {
+							x.Cov.Probe("argument_slots_completed")
+							want := []*world.ConsSpec{{K: "any", Type: ptype}}
+							for _, cd := range cands.List {
+								if cd.Kind != lang.ReferenceCandidateKind {
+									continue
+								}
+								tis, known := addrs[cd.Label]
+								if !known {
+									continue // reported by the clause below at other positions
+								}
+								fits := false
+								for _, ti := range tis {
+									if targetFits(ti.t, want, 0) {
+										fits = true
+									}
+								}
+								x.Cov.Probe("argument_fit_checked")
+								if !fits {
+									x.Report("argument-does-not-fit", "completion", "", fmt.Sprintf("candidate %q offered at byte %d, the place of argument %d of %s(): neither the declaration nor a nested one converts to the parameter's type %s", cd.Label, slot, len(e.A)+1, e.S, ptype), &q)
+									return
+								}
+							}
+						}
+					}
+				}
 				for _, off := range offs {
 					if c != nil && c.Offsets != nil && !hasInt(c.Offsets, off) {
 						continue
